@@ -489,7 +489,10 @@ fn check_tape_ab(tape: &[u8], gates: &Gates, stats: &mut Stats, counting: bool) 
     let mut text = text;
     let mut lexerr = false;
     if lt.ratio(1, 8) {
-        let junk = *lt.pick(&["?", "??", "@", "~", "\\", "§", "`"]);
+        // (characters no lexeme begins with: visible ones, and the invisible ones that editors and
+        // concatenated files leave behind - a byte-order mark in mid-file, no-break and zero-width
+        // blanks, control characters)
+        let junk = *lt.pick(&["?", "??", "@", "~", "\\", "§", "`", "\u{feff}", "\u{a0}", "\u{200b}", "€", "\u{1a}", "\u{0}", "😀", "\u{feff}\u{feff}", "?\u{feff}", "\u{3000}", "\u{ad}"]);
         if junk.is_ascii() || gates.want("LEXICAL_ERROR_NON_ASCII") {
             // insert at a line start so that no token is split
             let pos = PosIndex::new(&text);
